@@ -446,14 +446,23 @@ class Searcher:
         return self.P.run(src(subst(e, env)))
 
     def magnitude(self, e, env):
-        """largest magnitude among all intermediate values (numpy, interpreted)"""
-        m = 1.0
+        """(largest |integer|, largest |real|, smallest non-zero |real|) among all intermediate
+        values, both backends, interpreted"""
+        mi, mr, tiny = 1, 1.0, 1.0
         for c in children(e):
-            m = max(m, self.magnitude(c, env))
-        a, _ = self.run_expr(e, env, 'inline')
-        if a[0] == 'ok':
-            m = max(m, max_mag(a[1]))
-        return m
+            x, y, z = self.magnitude(c, env)
+            mi, mr, tiny = max(mi, x), max(mr, y), min(tiny, z)
+        for r in self.run_expr(e, env, 'inline'):
+            if r[0] != 'ok':
+                continue
+            for l in leaves(r[1]):
+                if l[0] == 'i':
+                    mi = max(mi, abs(l[1]))
+                elif l[0] == 'r' and not (math.isnan(l[1]) or math.isinf(l[1])):
+                    mr = max(mr, abs(l[1]))
+                    if l[1] != 0:
+                        tiny = min(tiny, abs(l[1]))
+        return mi, mr, tiny
 
     def deviates(self, a, b, atol=0.0):
         """a, b = run1 outcomes; returns None / (what, detail); both-return only"""
@@ -499,42 +508,52 @@ class Searcher:
         except Exception as e:
             return ('err', type(e).__name__, str(e)[:100])
 
-    def var_vs_inline(self, e, env, which):
-        """innermost node for which the code generated by `which` backend's expression compiler
-        returns something else than the interpreter does"""
+    def compiled_root_causes(self, e, env, atol, out):
+        """every innermost node (per backend) at which that backend's generated code returns a
+        value other than what its interpreter returns — each is a compiled-vs-interpreter
+        defect of its own; returns the set of backends with a cause inside the subtree"""
+        inner = set()
         for c in children(e):
-            r = self.var_vs_inline(c, env, which)
-            if r:
-                return r
-        self.P.bind(env)
-        k = self.P.kn if which == 'numpy' else self.P.kt
-        v = self.compiled_value(k, src(e))
-        if v[0] != 'ok':
-            return None
-        i = self.P.run1(k, src(subst(e, env)))
-        if i[0] != 'ok' or compare(v[1], i[1]) or text_compare(v[2], i[2]):
-            return e
-        return None
+            inner |= self.compiled_root_causes(c, env, atol, out)
+        here = set()
+        for name, k in (("numpy", self.P.kn), ("torch", self.P.kt)):
+            self.P.bind(env)
+            v = self.compiled_value(k, src(e))
+            if v[0] != 'ok':
+                continue
+            i = self.P.run1(k, src(subst(e, env)))
+            if i[0] != 'ok':
+                # this backend's interpreter raises here: the other one's is the reference
+                i = self.P.run1(self.P.kt if name == "numpy" else self.P.kn, src(subst(e, env)))
+            if i[0] == 'ok' and (compare(v[1], i[1], atol) or text_compare(v[2], i[2], atol)):
+                here.add(name)
+                if name not in inner:
+                    out.append(f"compiled-vs-interpreter:{name}:{node_name(e)}")
+        return inner | here
 
     def classify(self, e, env, mode, a, b, d):
         """stable key of the failing call-site class, or None when the deviation is not one the
         property speaks about (operand outside the numeric domain, rounding at a discontinuity)"""
         ctx = self.ctx
-        M = self.magnitude(e, env)
-        atol = RTOL * M
+        if any(l[0] == 'X' for l in leaves(a[1])) or any(l[0] == 'X' for l in leaves(b[1])):
+            ctx.bump("skipped:non-numeric-result")          # complex numbers, functions, …
+            return None
+        mi, mr, tiny = self.magnitude(e, env)
+        if mi >= 2 ** 31 or mr >= 1e30 or tiny <= 1e-30:
+            ctx.bump("skipped:magnitude-outside-the-universe")   # int64 wrap-around, float32 range
+            return None
+        atol = RTOL * max(mi, mr)
         if self.deviates(a, b, atol) is None:
             ctx.bump("tolerated:rounding-after-cancellation")
             return None
         if mode == 'var':
             ia, ib = self.run_expr(e, env, 'inline')
-            if ia[0] == 'ok' and ib[0] == 'ok' and self.deviates(ia, ib, atol) is None:
+            if not (ia[0] == 'ok' and ib[0] == 'ok' and self.deviates(ia, ib, atol) is not None):
                 # the interpreted evaluation agrees: the difference comes from the expression
-                # compiler running on one side only (or generating different code)
-                for which in ('numpy', 'torch'):
-                    n = self.var_vs_inline(e, env, which)
-                    if n is not None:
-                        return f"compiled-vs-interpreter:{which}:{node_name(n)}"
-                return "compiled-vs-interpreter:unexplained"
+                # compiler (running on one side only, or generating different code)
+                out = []
+                self.compiled_root_causes(e, env, atol, out)
+                return sorted(set(out)) or "compiled-vs-interpreter:unlocalised"
             mode = 'inline'
         c = self.culprit(e, env, mode, atol)
         if c is None:
@@ -557,6 +576,12 @@ class Searcher:
         if discontinuous and not exact:
             ctx.bump("tolerated:rounding-at-discontinuity")
             return None
+        if ce[0] == 'dy' and ce[1] == '^' and cd[0] in ('kind', 'text-kind') and ca[0] == 'ok' and cb[0] == 'ok' \
+                and U.veq(ca[1], cb[1], RTOL, kinds=False):
+            # Power returns an integer when the result is whole: in float32 a large non-whole
+            # value can be whole after rounding (14^6.25 = 14564652.7 -> 14564653)
+            ctx.bump("tolerated:power-whole-after-float32-rounding")
+            return None
         if ce[0] == 'scan' and ce[1] == '%' and kids and kids[0] is not None and kids[0][0] == 'L' \
                 and len(kids[0][1]) == 1 and vkind(kids[0]) == 'int' and cd[0] in ('kind', 'text-kind'):
             return "scan:%:integer-single-row:kind"
@@ -573,8 +598,24 @@ class Searcher:
             return ('bad', r)
         return m.group(1), m.group(2), m.group(3)
 
+    def undefined_inside(self, e, env):
+        """does some sub-expression evaluate to :undefined (division by a computed zero)? the
+        model carries reals as kind + shape only and cannot see that"""
+        a, b = self.run_expr(e, env, 'inline')
+        if any(r[0] == 'ok' and has_undef(r[1]) for r in (a, b)):
+            return True
+        return any(self.undefined_inside(c, env) for c in children(e))
+
     def check_model(self, case, which, mres, real):
         """model result vs real outcome of one backend"""
+        ctx = self.ctx
+        n0 = len(ctx.mismatches)
+        self._check_model(case, which, mres, real)
+        if len(ctx.mismatches) > n0 and mres.startswith("ab:") and self.undefined_inside(*self._cur):
+            del ctx.mismatches[n0:]
+            ctx.bump("model:undefined-inside-real-subexpression")
+
+    def _check_model(self, case, which, mres, real):
         ctx = self.ctx
         tag = mres.split(":", 1)[0]
         ctx.bump("model:" + (mres if tag == 'oom' else tag))
@@ -627,8 +668,8 @@ class Searcher:
             d = self.deviates(a, b)
             if d:
                 key = self.classify(e, env, mode, a, b, d)
-                if key:
-                    ctx.oracle_fail(key, case, f"numpy: {a[2]}", f"torch: {b[2]}",
+                for k in ([key] if isinstance(key, str) else key or []):
+                    ctx.oracle_fail(k, case, f"numpy: {a[2]}", f"torch: {b[2]}",
                                     f"{d[0]}: {d[1]} (same program, same bindings, both backends return)")
         elif a[0] == 'err' and b[0] == 'err':
             ctx.bump("outcome:both-raise")
@@ -636,6 +677,7 @@ class Searcher:
             ctx.bump("outcome:only-" + ("torch" if a[0] == 'err' else "numpy") + "-returns")
         # model (interpreted path only: the compiled path is C05's subject)
         if mode == 'inline' and self.drv is not None:
+            self._cur = (e, env)
             m = self.model(e, env)
             if m[0] == 'bad':
                 ctx.mismatch("kd_c08 protocol", case, m[1], "")
@@ -740,7 +782,7 @@ def micro(ctx, drv, n):
         # numpy's own ufunc semantics used as the reference side
         ask("npReduce:sub", [wa], None, np.subtract.reduce(a))
         ask("npAccumulate:sub", [wa], None, np.subtract.accumulate(a))
-        ask("npAccumulate:min", [wa], None, np.minimum.accumulate(a))
+        ask("scanRows:min", [wa], None, np.minimum.accumulate(a))
         # float32 rounding of integers (the pinned floor_to_int)
         big = np.array([rng.choice([1, -1]) * rng.randrange(2 ** rng.randrange(20, 40)) for _ in range(3)]
                        + [2 ** 24 + 1, 2 ** 24 + 3, -(2 ** 25 + 2), 2 ** 24, 2 ** 30 + 64], dtype=np.int64)
@@ -973,7 +1015,7 @@ def run(ctx):
                         for e in progs:
                             S.one(e, env, 'inline')
                             S.one(e, env, 'var')
-        n2, n3 = (4000, 0) if quick else (12000, 12000)
+        n2, n3 = (4000, 0) if quick else (30000, 30000)
         for depth, n in ((2, n2), (3, n3)):
             for _ in range(n):
                 env = gen_env(ctx.rng)
